@@ -375,6 +375,10 @@ class AccessoryConn(asyncio.Protocol):
             headers.append(("Content-Length", " " + str(len(body))))
         elif mode == "chunked":
             headers.append(("Transfer-Encoding", " chunked"))
+        # header names are case-insensitive (RFC 9110): some accessories write them in lower or upper case throughout
+        case = getattr(self.accessory, "header_case", None)
+        if case:
+            headers = [(getattr(n, case)(), v) for n, v in headers]
         return refhttp.serialize_message("HTTP", code, headers, body, mode)
 
     def event(self, body: bytes, chunks=None) -> bytes:
@@ -507,6 +511,17 @@ class AccessoryConn(asyncio.Protocol):
     def _tlv_reply(self, items, code=200):
         return self.http(code, reftlv.encode(items), "application/pairing+tlv8")
 
+    def _tlv_error_reply(self, items, code=200):
+        """An error reply; its header names may be spelt differently from the accessory's ordinary replies (a separate routine
+        in the firmware): script.error_header_case in (None, "lower", "upper")."""
+        acc = self.accessory
+        old = getattr(acc, "header_case", None)
+        acc.header_case = getattr(self.script, "error_header_case", old)
+        try:
+            return self._tlv_reply(items, code)
+        finally:
+            acc.header_case = old
+
     def _pair_verify(self, req):
         mode = self.script.verify
         try:
@@ -530,7 +545,7 @@ class AccessoryConn(asyncio.Protocol):
             if mode.startswith("m2_err:"):
                 # m2_err:<error code>[:<http status>] - the TLV error reply may travel with an HTTP 4xx status
                 parts = mode.split(":")
-                return self.send(self._tlv_reply([(6, b"\x02"), (7, bytes([int(parts[1])]))], int(parts[2]) if len(parts) > 2 else 200))
+                return self.send(self._tlv_error_reply([(6, b"\x02"), (7, bytes([int(parts[1])]))], int(parts[2]) if len(parts) > 2 else 200))
             identity = acc.identity
             if mode == "wrong_id":
                 identity = acc.other_identity
@@ -565,7 +580,7 @@ class AccessoryConn(asyncio.Protocol):
                 return None
             if mode.startswith("m4_err:"):
                 parts = mode.split(":")
-                return self.send(self._tlv_reply([(6, b"\x04"), (7, bytes([int(parts[1])]))], int(parts[2]) if len(parts) > 2 else 200))
+                return self.send(self._tlv_error_reply([(6, b"\x04"), (7, bytes([int(parts[1])]))], int(parts[2]) if len(parts) > 2 else 200))
             if self.exchange is None:
                 return self.send(self._tlv_reply([(6, b"\x04"), (7, b"\x02")]))
             reply = self.exchange.m3(items)
